@@ -97,7 +97,7 @@ def discharged(obs, props_rel, build_res):
     if build_res["ok"]:
         return [dict(o, discharged=True, error=None) for o in obs]
     errs = [e for e in build_res["errors"] if e["file"].endswith(props_rel) or props_rel.endswith(e["file"])]
-    upstream = [e for e in build_res["errors"] if e not in errs]
+    upstream = [e for e in build_res["errors"] if e not in errs and "/Props/" not in e["file"]]
     lines = sorted(o["line"] for o in obs)
     out = []
     for o in obs:
